@@ -546,8 +546,8 @@ func (w *world) tamperCookie(n string, kind int, rng *mrand.Rand) {
 		w.rec(M{"op": "jar", "edit": "bad", "name": short})
 	case k == 2: // bit flip in the middle
 		b := []byte(j[n])
-		if len(b) > 10 {
-			p := 5 + rng.Intn(len(b)-6)
+		if len(b) > 20 {
+			p := 5 + rng.Intn(len(b)-10) // (not among the last characters: the final base64 character carries unused bits)
 			if b[p] == 'A' {
 				b[p] = 'B'
 			} else {
